@@ -36,6 +36,8 @@ def _root(n):
 
 class Purity:
     def __init__(self, repo):
+        self.repo = repo
+        self._cw = {}           # (rel, cls, name) -> attributes of self that this class's method may store
         self.defs = {}          # name -> [(fdef, is_method)]
         self.lambdas = set()    # attribute / global names bound to lambdas somewhere (self.Sigma_0 = lambda x: ..)
         for rel, m in sorted(repo.modules.items()):
@@ -110,7 +112,26 @@ class Purity:
             n = n.value
         return (n.id if isinstance(n, ast.Name) else None), first
 
-    def _writes(self, fdef, is_method):
+    def class_writes(self, rel, cls, name, _stack=()):
+        """attributes of self that `self.name(..)` may store when self is an instance of class `cls` of module `rel` (the method is
+        looked up along the class's bases; calls it makes on self are resolved the same way); None if the class has no such method"""
+        key = (rel, cls, name)
+        if key in self._cw:
+            return self._cw[key]
+        fm = self.repo.find_method(rel, cls, name) if cls in self.repo.modules[rel].classes else None
+        if fm is None:
+            return None
+        if key in _stack:
+            return {'*'}              # recursion: give up on precision
+        fdef = self.repo.modules[fm[0]].functions[fm[1]]
+        if any(isinstance(d, ast.Name) and d.id in ('staticmethod', 'classmethod') for d in fdef.decorator_list):
+            return None
+        w = self._writes(fdef, True, ctx=(rel, cls, _stack + (key,))).get(0, set())
+        if not _stack:
+            self._cw[key] = w
+        return w
+
+    def _writes(self, fdef, is_method, ctx=None):
         """-> {parameter index: set of first-level attribute names written ('*' = the object itself / unknown)}"""
         a = fdef.args
         params = [x.arg for x in a.posonlyargs + a.args]
@@ -164,6 +185,15 @@ class Purity:
                 mark(n.value)
             elif isinstance(n, ast.Call):
                 f = n.func
+                if ctx is not None and isinstance(f, ast.Attribute) and isinstance(f.value, ast.Name) and params and f.value.id == params[0]:
+                    cw = self.class_writes(ctx[0], ctx[1], f.attr, ctx[2])
+                    if cw is not None:         # self.m(..) resolved in the known class
+                        if cw:
+                            mark(f.value, sub=cw)
+                        for i in self.param_mut.get(f.attr, ()):
+                            if i < len(n.args):
+                                mark(n.args[i])
+                        continue
                 if isinstance(f, ast.Attribute) and f.attr in MUTATORS:
                     mark(f.value)
                 elif isinstance(f, ast.Attribute) and self.is_writing(f.attr):
@@ -207,6 +237,11 @@ class Purity:
 
     def attrs_written(self, name):
         """first-level attributes of the receiver that a call of `name` may store, or None when that is not known"""
+        if ':' in name:                 # 'rel:Cls.method' - resolved in a known class
+            rel, q = name.split(':', 1)
+            cls, m = q.split('.', 1)
+            a = self.class_writes(rel, cls, m)
+            return None if a is None or '*' in a else frozenset(a)
         if name in MUTATORS and name not in self.defs:
             return None
         if name in self.defs or name in self.lambdas:
